@@ -248,6 +248,17 @@ func genLegacy(t *Tracer, m *Meta, tier string, seed int64) {
 		}
 		m.class("family:" + fam)
 	}
+	// (2a) special shapes in the 0.5.10/0.5.11 layouts (these have 257-bit and short nodes)
+	for i := 0; i < 4; i++ {
+		c0 := bigMimicCase(r, "i32")
+		if i%2 == 1 {
+			c0 = dedupBigCase(r, "i32")
+		}
+		layout := v10[r.Intn(len(v10))]
+		c := &TrieCase{Keys: c0.Keys, Enc: "i32", Vals: c0.Vals, Opt4: layoutOpt(layout, i%2)}
+		runLegacyCase(t, m, r, c, layout, querySet(r, c.Keys, 120), strings.Contains(layout, "allpref"))
+		m.class([]string{"special:bigmimic", "special:dedupbig"}[i%2])
+	}
 	// (2b) word-boundary shapes (leaf counts, node counts, inner counts on 64-bit edges)
 	nB := 30
 	if !quick {
